@@ -141,6 +141,7 @@ type Engine struct {
 	initDeny       map[string]bool
 	detSched       bool
 	preemptOK      map[*ssa.Function]bool
+	harnessFn      map[*ssa.Function]bool
 	snapshot_      *initSnapshot
 	snapshotUnsafe bool
 	pathCopier     *copier
